@@ -111,12 +111,23 @@ def confinement(rng):
         # providers of different case sensitivity; users act on the case-SENSITIVE side, where a folder whose name
         # differs from the root only by case ('/Remote' next to '/remote') is a different folder outside the root
         cs = (side == 0, side == 1)
-    fl = E.Flavour(base_fl.oip, cs, False, rng.choice(["path", "oid"]), base_fl.roots)
+    roots = base_fl.roots
+    nested_names = (not mixed) and rng.random() < 0.25
+    if nested_names:
+        # the OTHER side's root path, read as a string, is an ancestor of everything on the acting side
+        # ('/w/local' <-> '/w', or '/' as the other root): a path outside the acting side's root then still lies
+        # "under" the other root's path string, which must not matter - each side is judged against its own root
+        other_root = rng.choice(["/w", "/"])
+        mine = "/w/local" if side == 0 else "/w/remote"
+        roots = (mine, other_root) if side == 0 else (other_root, mine)
+    fl = E.Flavour(base_fl.oip, cs, False, rng.choice(["path", "oid"]), roots)
     g = EC.Gen(rng, fl, [side], 0)
     g.allow_empty = False
     root = fl.roots[side]
     sib = root + "2"                       # '/local2' : shares only a name prefix with the root
     outs = ["/other", sib, root + "x"]
+    if nested_names:
+        outs.append("/w/elsewhere")
     if mixed:
         outs.append("/" + root.strip("/").capitalize())
     decline = rng.random() < 0.3
@@ -452,3 +463,34 @@ def _mk_sb_runner(prop):
 
 for _p in ("C01", "C02", "C03", "C04", "C12"):
     globals()["run_streamb_" + _p] = _mk_sb_runner(_p)
+
+
+# ------------------------------------------------------------------ conflicts under transient provider faults (C02)
+def conflicts_faulty(rng):
+    """C02 family: the edit/edit and create/create conflicts of `conflicts`, with every engine provider call failing
+    independently with a small probability (temporary / resource-modified / disconnected errors) while the conflict is
+    being handled; the faults stop before each drain.  No covered version may vanish, whatever call fails."""
+    from . import families_c10 as F10
+    c = conflicts(rng)
+    kinds = rng.choice([["temporary"], ["temporary", "resource_modified"], ["disconnected"], ["temporary", "disconnected"]])
+    p = rng.choice([0.05, 0.1, 0.2, 0.3])
+    plan = dict(rules=[dict(t="rate", seed=rng.randrange(1 << 30), p=p, kinds=kinds, max=rng.choice([1, 2, 5]))])
+    sched = []
+    first = True
+    for a in c["schedule"]:
+        if a[0] == "drain" and not first:
+            sched += [["hook", "steps", rng.randint(1, 4)], ["faults_off"], ["drain"], ["faults", plan]]
+        else:
+            sched.append(a)
+            if a[0] == "drain" and first:
+                sched.append(["faults", plan])
+                first = False
+    sched += [["faults_off"]]
+    c["schedule"] = sched
+    c["c10"] = dict(family="conflict-rate", p=p, kinds=kinds)
+    return F10.finish_case(c)
+
+
+def run_conflicts_faulty(case, monitor):
+    from . import families_c10 as F10
+    return F10.run_c10(case, monitor)
